@@ -27,13 +27,24 @@ type pgItem struct {
 }
 
 type pgCase struct {
-	where string // sort:<impl> | filter:<impl> | node
+	where string // sort:<impl> | filter:<impl> | node | own:<variant> | nested:<variant> (the paginated field's own resolver)
 	kind  string // error | safe | wrapped | panic
 }
 
 func (c pgCase) name() string { return c.where + " kind=" + c.kind }
 
 var pgImpls = []string{"plain", "expensive", "batch", "fallback-off"}
+
+// The ways of registering a paginated field whose own resolver can fail: pagination done by thunder (without and with
+// context and arguments), done by the resolver itself (it takes the PaginationArgs and returns the page information),
+// and the latter with a thunder-paginated fallback, with either half in use.
+var pgOwn = []string{"auto", "args", "manual", "manual-fb-on", "manual-fb-off"}
+
+type pgManualArgs struct {
+	Min            *int64
+	PaginationArgs schemabuilder.PaginationArgs
+}
+type pgPlainArgs struct{ Min *int64 }
 
 func pgFail(kind, what string) error {
 	switch kind {
@@ -116,6 +127,65 @@ func pgSchema(c pgCase) *graphql.Schema {
 	)
 	obj := s.Object("pgItem", pgItem{})
 	obj.Key("id")
+	for _, level := range []string{"own", "nested"} {
+		level := level
+		target := s.Query()
+		if level == "nested" {
+			target = obj
+		}
+		hit := func(variant string, src []pgItem) error {
+			if level == "nested" && src[0].Id != 2 {
+				return nil
+			}
+			return pgFail(failing(level+":"+variant), level+":"+variant)
+		}
+		info := func() schemabuilder.PaginationInfo {
+			return schemabuilder.PaginationInfo{TotalCountFunc: func() int64 { return int64(len(items)) }, Pages: []string{}}
+		}
+		// the same bodies with and without a source object (root fields have none)
+		reg := func(name string, withSrc, noSrc interface{}, opts ...schemabuilder.FieldFuncOption) {
+			if level == "nested" {
+				target.FieldFunc(name, withSrc, opts...)
+			} else {
+				target.FieldFunc(name, noSrc, opts...)
+			}
+		}
+		auto := func(src ...pgItem) ([]pgItem, error) { return items, hit("auto", src) }
+		reg("p_auto", func(i pgItem) ([]pgItem, error) { return auto(i) }, func() ([]pgItem, error) { return auto() }, schemabuilder.Paginated)
+		args := func(src ...pgItem) ([]pgItem, error) { return items, hit("args", src) }
+		reg("p_args", func(ctx context.Context, i pgItem, a pgPlainArgs) ([]pgItem, error) { return args(i) },
+			func(ctx context.Context, a pgPlainArgs) ([]pgItem, error) { return args() }, schemabuilder.Paginated)
+		manual := func(variant string, src ...pgItem) ([]pgItem, schemabuilder.PaginationInfo, schemabuilder.PostProcessOptions, error) {
+			return items[:2], info(), schemabuilder.PostProcessOptions{}, hit(variant, src)
+		}
+		reg("p_manual", func(ctx context.Context, i pgItem, a pgManualArgs) ([]pgItem, schemabuilder.PaginationInfo, schemabuilder.PostProcessOptions, error) {
+			return manual("manual", i)
+		}, func(ctx context.Context, a pgManualArgs) ([]pgItem, schemabuilder.PaginationInfo, schemabuilder.PostProcessOptions, error) {
+			return manual("manual")
+		}, schemabuilder.Paginated)
+		for _, on := range []bool{true, false} {
+			on := on
+			variant := "manual-fb-off"
+			if on {
+				variant = "manual-fb-on"
+			}
+			fb := func(src ...pgItem) ([]pgItem, error) { return items, hit(variant, src) }
+			flag := func(context.Context) bool { return on }
+			if level == "nested" {
+				target.ManualPaginationWithFallback("p_"+variant,
+					func(ctx context.Context, i pgItem, a pgManualArgs) ([]pgItem, schemabuilder.PaginationInfo, schemabuilder.PostProcessOptions, error) {
+						return manual(variant, i)
+					},
+					func(ctx context.Context, i pgItem, a pgPlainArgs) ([]pgItem, error) { return fb(i) }, flag, schemabuilder.Paginated)
+			} else {
+				target.ManualPaginationWithFallback("p_"+variant,
+					func(ctx context.Context, a pgManualArgs) ([]pgItem, schemabuilder.PaginationInfo, schemabuilder.PostProcessOptions, error) {
+						return manual(variant)
+					},
+					func(ctx context.Context, a pgPlainArgs) ([]pgItem, error) { return fb() }, flag, schemabuilder.Paginated)
+			}
+		}
+	}
 	obj.FieldFunc("label", func(ctx context.Context, i pgItem) (string, error) {
 		if i.Id == 2 {
 			if err := pgFail(failing("node"), "node"); err != nil {
@@ -135,6 +205,10 @@ func pgQuery(c pgCase) string {
 		return fmt.Sprintf(`{ list(first: 3, sortBy: "s_%s") { totalCount edges { node { id label } } } }`, parts[1])
 	case "filter":
 		return fmt.Sprintf(`{ list(first: 3, filterText: "ap", filterTextFields: ["f_%s"]) { totalCount edges { node { id label } } } }`, parts[1])
+	case "own":
+		return fmt.Sprintf(`{ l: p_%s(first: 2) { totalCount edges { node { id label } } } }`, parts[1])
+	case "nested":
+		return fmt.Sprintf(`{ list(first: 3) { edges { node { id l: p_%s(first: 2) { totalCount edges { node { id } } } } } } }`, parts[1])
 	}
 	return `{ list(first: 3) { edges { node { id label } } } }`
 }
@@ -146,6 +220,9 @@ func runPaginated(rp *explore.Report, tier string) {
 			cases = append(cases, pgCase{"sort:" + impl, kind}, pgCase{"filter:" + impl, kind})
 		}
 		cases = append(cases, pgCase{"node", kind})
+		for _, v := range pgOwn {
+			cases = append(cases, pgCase{"own:" + v, kind}, pgCase{"nested:" + v, kind})
+		}
 	}
 	var k int64
 	for _, c := range cases {
@@ -196,5 +273,5 @@ func runPaginated(rp *explore.Report, tier string) {
 
 func init() {
 	reg.Register(&reg.Harness{Property: "C16", Name: "c16/paginated-failures", Level: "model_checking", Run: runPaginated,
-		Rule: "a thunder-managed paginated field whose sort-field or filter-field resolver (plain, Expensive, batch, batch with fallback in use) or a field of the listed objects fails with {error, SafeError, wrapped safe error, panic}, under the sequential and the goroutine work scheduler (default schedule); oracle: Execute returns (nil, err), the failure never escapes the executor as a panic, safe errors do not carry internal text"})
+		Rule: "a thunder-managed paginated field whose sort-field or filter-field resolver (plain, Expensive, batch, batch with fallback in use) or a field of the listed objects fails, and a paginated field (at the root and under a list) whose own resolver fails, registered as {thunder-paginated without / with context and arguments, paginating itself, paginating itself with a thunder-paginated fallback with either half in use} with {error, SafeError, wrapped safe error, panic}, under the sequential and the goroutine work scheduler (default schedule); oracle: Execute returns (nil, err), the failure never escapes the executor as a panic, safe errors do not carry internal text"})
 }
